@@ -372,6 +372,7 @@ class Analysis:
         self.const_fns = {}
         self.visited_fns = set()
         self.events = defaultdict(list)   # fn -> [(block, kind, payload)]  e.g. need-more returns for C04
+        self.len_guards = defaultdict(dict)   # fn -> {switch block: True if some context compares a length of the decoder's source buffer}
         self.enum_variants = {}
         for it in prog.items:
             if it["k"] == "enum":
@@ -835,6 +836,14 @@ class Analysis:
         f = st.fact.get(pkey(p)) if p else None
         listed = [v for v, _ in t["arms"]]
         targets = [(v, tgt) for v, tgt in t["arms"]] + [(None, t["otherwise"])]
+        g_ = f
+        while g_ and g_[0] == "not":
+            g_ = g_[1]
+        if g_ and g_[0] == "cmp":
+            src_ = any("decode:arg2" in sy for e_ in (g_[2], g_[3]) for sy in e_.t)
+            self.len_guards[body.defp][blk] = self.len_guards[body.defp].get(blk, False) or src_
+        elif g_ and g_[0] == "bool":
+            self.len_guards[body.defp][blk] = self.len_guards[body.defp].get(blk, False) or ("decode:arg2" in str(g_[2]))
         by = defaultdict(list)
         for v, tgt in targets:
             ns = st.copy()
